@@ -57,6 +57,10 @@ pub struct FillSpec {
     /// fee rate in 1e-5 units of the fill's value (0 = no fee)
     pub fee_rate: u16,
     pub dt: u16,
+    /// > 0: the fill is reported with an exchange time this many ms BEFORE the running time (fills
+    /// of two orders reported out of time order, a delayed report)
+    #[serde(default)]
+    pub stale_ms: u16,
 }
 
 #[derive(Debug, Clone, Serialize, Deserialize)]
@@ -120,7 +124,7 @@ pub fn resolve(case: &PositionCase) -> Vec<Fill> {
         let fee = (price * qty * Decimal::new(f.fee_rate as i64, 5)).round_dp(10);
         t += 1 + f.dt as i64;
         net += if f.buy { qty } else { -qty };
-        out.push(Fill { id: format!("t{i}"), buy: f.buy, price, qty, fee, t_ms: t });
+        out.push(Fill { id: format!("t{i}"), buy: f.buy, price, qty, fee, t_ms: if i > 0 { t - f.stale_ms as i64 } else { t } });
     }
     out
 }
@@ -150,6 +154,8 @@ struct Ledger {
     // per open position
     open_ids: Vec<String>,
     open_time_enter: i64,
+    /// latest exchange time among the fills of the open position
+    open_time_latest: i64,
     open_qmax: Decimal,
     open_inc_price_min: Option<Decimal>,
     open_inc_price_max: Option<Decimal>,
@@ -215,6 +221,7 @@ fn check_step<K: std::fmt::Debug + Clone + PartialEq>(
     if prev.is_zero() {
         l.open_ids = vec![f.id.clone()];
         l.open_time_enter = f.t_ms;
+        l.open_time_latest = f.t_ms;
         l.open_qmax = f.qty;
         l.open_inc_price_min = Some(f.price);
         l.open_inc_price_max = Some(f.price);
@@ -234,6 +241,9 @@ fn check_step<K: std::fmt::Debug + Clone + PartialEq>(
         shape.reduced_since_open = true;
     }
 
+    if !prev.is_zero() {
+        l.open_time_latest = l.open_time_latest.max(f.t_ms);
+    }
     if let Some(e) = exited {
         l.exits += 1;
         let exp_side = if prev.is_sign_positive() { Side::Buy } else { Side::Sell };
@@ -244,7 +254,9 @@ fn check_step<K: std::fmt::Debug + Clone + PartialEq>(
         if ids != l.open_ids {
             bad!("exit-trade-ids", "exited position records fills {ids:?}, the fills that affected it are {:?}", l.open_ids);
         }
-        if e.time_enter != ts(l.open_time_enter) || e.time_exit != ts(f.t_ms) {
+        // (a fill reported out of time order: its own time or the latest time seen are both
+        // reasonable "time of exit"; in-order fills make the two coincide)
+        if e.time_enter != ts(l.open_time_enter) || (e.time_exit != ts(f.t_ms) && e.time_exit != ts(l.open_time_latest)) {
             bad!("exit-times", "exited time_enter/time_exit {:?}/{:?}, expected {:?}/{:?}", e.time_enter, e.time_exit, ts(l.open_time_enter), ts(f.t_ms));
         }
         if e.quantity_abs_max != l.open_qmax {
@@ -256,6 +268,7 @@ fn check_step<K: std::fmt::Debug + Clone + PartialEq>(
             shape.flips += 1;
             l.open_ids = vec![f.id.clone()];
             l.open_time_enter = f.t_ms;
+            l.open_time_latest = f.t_ms;
             l.open_qmax = new.abs();
             l.open_inc_price_min = Some(f.price);
             l.open_inc_price_max = Some(f.price);
@@ -288,7 +301,7 @@ fn check_step<K: std::fmt::Debug + Clone + PartialEq>(
             if ids != l.open_ids {
                 bad!("trade-ids", "position records fills {ids:?}, the fills that affected it are {:?}", l.open_ids);
             }
-            if p.time_enter != ts(l.open_time_enter) || p.time_exchange_update != ts(f.t_ms) {
+            if p.time_enter != ts(l.open_time_enter) || (p.time_exchange_update != ts(f.t_ms) && p.time_exchange_update != ts(l.open_time_latest)) {
                 bad!("times", "time_enter/update {:?}/{:?}, expected {:?}/{:?}", p.time_enter, p.time_exchange_update, ts(l.open_time_enter), ts(f.t_ms));
             }
             if flips {
@@ -344,8 +357,9 @@ fn fill_spec() -> impl Strategy<Value = FillSpec> {
         ],
         prop_oneof![3 => Just(0u16), 7 => 1u16..2000],
         0u16..5000,
+        prop_oneof![6 => Just(0u16), 1 => 1u16..20_000],
     )
-        .prop_map(|(buy, price_m, price_s, qty, fee_rate, dt)| FillSpec { buy, price_m, price_s, qty, fee_rate, dt })
+        .prop_map(|(buy, price_m, price_s, qty, fee_rate, dt, stale_ms)| FillSpec { buy, price_m, price_s, qty, fee_rate, dt, stale_ms })
 }
 
 impl Check for PositionLedger {
@@ -362,7 +376,7 @@ impl Check for PositionLedger {
             }
         }
         if case.fills.is_empty() {
-            case.fills.push(FillSpec { buy: true, price_m: 100, price_s: 0, qty: QtySel::Pool(0), fee_rate: 0, dt: 0 });
+            case.fills.push(FillSpec { buy: true, price_m: 100, price_s: 0, qty: QtySel::Pool(0), fee_rate: 0, dt: 0, stale_ms: 0 });
         }
         case
     }
@@ -443,13 +457,14 @@ impl Check for PositionLedger {
         rep.class_if(shape.flips > 1, "repeated_flips");
         rep.class_if(shape.exact_closes > 0, "exact_close");
         rep.class_if(fills.iter().any(|f| f.fee.is_zero()), "zero_fee_fill");
+        rep.class_if(fills.windows(2).any(|w| w[1].t_ms < w[0].t_ms), "fill_reported_out_of_time_order");
         rep.nontrivial = fills.len() >= 3 && (shape.increase_after_reduction || shape.flips > 0 || shape.exact_closes > 0);
         rep
     }
 }
 
 pub fn run(ctx: &mut Ctx) {
-    ctx.rule = "position_ledger: 1..30|60 fills on one instrument; one magnitude class per case (tiny ~1e-7..1e-2, mid 1e-4..1e5, huge 1..1e9 prices with matching quantity units); quantity selectors biased towards exact closes, halvings, flips (current, half, double, current+unit, pool, fresh); fee = value x rate (30% zero). Applied to PositionManager::update_from_trade and to EngineState::update_from_account(Trade). non-trivial = >=3 fills AND at least one of {increase after a reduction, flip, exact close}; distinct by hash of the case.".into();
+    ctx.rule = "position_ledger: 1..30|60 fills on one instrument; one magnitude class per case (tiny ~1e-7..1e-2, mid 1e-4..1e5, huge 1..1e9 prices with matching quantity units); quantity selectors biased towards exact closes, halvings, flips (current, half, double, current+unit, pool, fresh); fee = value x rate (30% zero); one fill in seven carries an exchange time earlier than fills already applied. Applied to PositionManager::update_from_trade and to EngineState::update_from_account(Trade). non-trivial = >=3 fills AND at least one of {increase after a reduction, flip, exact close}; distinct by hash of the case.".into();
     ctx.assumptions = vec![
         "price > 0, quantity > 0, fee >= 0, unique trade ids, |price x quantity| <= 1e18 so Decimal arithmetic cannot overflow".into(),
         "decimal rounding tolerance 1e-22 x (1 + gross turnover) on the conservation laws (Decimal carries 28 significant digits; a wrong term is at least a fee or a price tick times a quantity)".into(),
